@@ -1520,6 +1520,55 @@ def typing_noops(program, log):
                        'the value / inspect.isgenerator')
 
 
+def relpath_abspath(program, log):
+    """`v = os.path.abspath(E)` used only as the start of `os.path.relpath(p,
+    v)`: relpath begins by taking abspath(start) and abspath is idempotent, so
+    `relpath(p, abspath(E))` is `relpath(p, E)` (E not assigned afterwards).
+    `realpath` resolves symbolic links and is NOT such a no-op."""
+    import copy as _copy
+    for f in program.all_functions():
+        pts = {k for k, v in f.module.imports.items()
+               if v == ('module', 'os.path')} | {'os.path'}
+        for st in list(ast.walk(f.node)):
+            if not (isinstance(st, ast.Assign) and len(st.targets) == 1
+                    and isinstance(st.targets[0], ast.Name)
+                    and isinstance(st.value, ast.Call)
+                    and isinstance(st.value.func, ast.Attribute)
+                    and st.value.func.attr == 'abspath'
+                    and dotted(st.value.func.value) in pts
+                    and len(st.value.args) == 1
+                    and isinstance(st.value.args[0], ast.Name)):
+                continue
+            v, e = st.targets[0].id, st.value.args[0]
+            stores_v = [n for n in ast.walk(f.node) if isinstance(n, ast.Name)
+                        and n.id == v and isinstance(n.ctx, ast.Store)]
+            later_e = [n for n in ast.walk(f.node) if isinstance(n, ast.Name)
+                       and n.id == e.id and isinstance(n.ctx, ast.Store)
+                       and n.lineno >= st.lineno]
+            loads = [n for n in ast.walk(f.node) if isinstance(n, ast.Name)
+                     and n.id == v and isinstance(n.ctx, ast.Load)]
+            starts = [c.args[1] for c in ast.walk(f.node)
+                      if isinstance(c, ast.Call) and isinstance(
+                          c.func, ast.Attribute) and c.func.attr == 'relpath'
+                      and dotted(c.func.value) in pts and len(c.args) == 2
+                      and not c.keywords]
+            if len(stores_v) != 1 or later_e or not loads or not all(
+                    any(l is s for s in starts) for l in loads):
+                continue
+            for c in ast.walk(f.node):
+                if isinstance(c, ast.Call) and len(c.args) == 2 and any(
+                        c.args[1] is l for l in loads):
+                    c.args[1] = ast.copy_location(_copy.deepcopy(e),
+                                                  c.args[1])
+            for par in ast.walk(f.node):
+                for fld in ('body', 'orelse', 'finalbody'):
+                    b = getattr(par, fld, None)
+                    if isinstance(b, list) and st in b:
+                        b[b.index(st)] = ast.copy_location(ast.Pass(), st)
+            log.append(f'{f.where}: relpath(p, abspath({e.id})) read as '
+                       f'relpath(p, {e.id})')
+
+
 def rotate_idiom(program, log):
     """`q.append(q.popleft())` on a deque known to be non-empty (an earlier
     statement of the same block returns when it is empty / has at most one
@@ -2061,7 +2110,7 @@ def run(program):
     program.records = {}
     program.cow = set()
     for step in (explicit_properties, walrus_out, inline_simple_decorators,
-                 typing_noops, sentinel_lookups, setdefault_fresh, mirror_locals,
+                 typing_noops, relpath_abspath, sentinel_lookups, setdefault_fresh, mirror_locals,
                  rotate_idiom, drain_loops, stat_probe, split_parallel_assign,
                  inline_aliases, context_managers_to_try, rpartition_keys,
                  slices_of_islice,
